@@ -158,6 +158,7 @@ Section Intr.
     destruct o; (eapply t_bind with (Q := fun _ => Inv1); [|intros ?; cbv beta; exact IH]).
     - eapply t_conseq; [apply (inv1_prim (EWrite data disk) None I)|idc|idc| |]; intros; exact I.
     - eapply t_conseq; [apply (inv1_prim EFlush None I)|idc|idc| |]; intros; exact I.
+    - eapply t_conseq; [apply (inv1_prim EClose None I)|idc|idc| |]; intros; exact I.
   Qed.
 
   Lemma ip_exit_false :
